@@ -160,6 +160,23 @@ def offline(ctx, res):
     recs = recs[:limit]
     t0 = time.time()
     results = common.pmap(replay, [(ctx["cli"], ev) for ev in recs], workers=min(16, ctx["ncpu"]))
+    # The evaluator is deterministic, reading a pseudo-terminal is not (what has arrived when the prompt is looked for
+    # depends on scheduling): a session that reports something is typed in twice more, one session at a time, and only
+    # what all three runs report is a violation; anything else is an inconclusive case.
+    unstable = 0
+    for i, ((viols, info, n), ev) in enumerate(zip(results, recs)):
+        if not viols:
+            continue
+        key = lambda v: (v[0], v[2].get("at_statement"), v[2].get("name"), v[2].get("statement"))
+        keep = {key(v) for v in viols}
+        for _ in range(2):
+            v2, _, _ = replay((ctx["cli"], ev))
+            keep &= {key(v) for v in v2}
+        confirmed = [v for v in viols if key(v) in keep]
+        if len(confirmed) != len(viols):
+            unstable += 1
+            res.inconclusive_cases.append("REPL leg: a session answered differently when typed in again (pseudo-terminal timing); the report was not confirmed: " + viols[0][0])
+        results[i] = (confirmed, info, n)
     sessions = statements = 0
     for (viols, info, n), ev in zip(results, recs):
         sessions += n
@@ -171,5 +188,5 @@ def offline(ctx, res):
         for sig, what, case in viols:
             res.viols.append({"t": "viol", "prop": "C03", "sig": sig, "what": what, "case": case})
     return {"evaluations": sessions, "nontrivial": sessions, "distinct_nontrivial": 0,
-            "coverage": {"repl_leg": {"sessions_replayed_through_real_repl": sessions, "statements_typed": statements, "seconds": round(time.time() - t0, 1),
+            "coverage": {"repl_leg": {"sessions_replayed_through_real_repl": sessions, "statements_typed": statements, "seconds": round(time.time() - t0, 1), "reports_not_confirmed_on_replay": unstable,
                                       "driver": "blots (release, hooks off) on a pseudo-terminal; outputs object read after Ctrl-D"}}}
